@@ -51,3 +51,44 @@ Print Assumptions C19_page_size.
 Print Assumptions C19_default_page.
 Print Assumptions C19_insert_sorted.
 Print Assumptions C19_nonvacuous.
+
+From HT Require Import World.World World.Observe Proofs.FactoryProofs Proofs.RegHistProofs Proofs.WorldWalkProofs.
+From Coq Require Import Sorting.Permutation.
+Theorem C19_world_store : forall (enc : asset -> bytes) reg, NoDup (map (rec_key enc) reg) ->
+    Sorted_store (store_of enc reg) /\ KeyOK (rec_assets enc) (store_of enc reg) /\
+    Permutation (map snd (store_of enc reg)) reg /\ length (store_of enc reg) = length reg.
+Proof. exact store_of_facts. Qed.
+Print Assumptions C19_world_store.
+
+Theorem C19_world_walk : forall (enc : asset -> bytes) reg limit,
+    NoDup (map (rec_key enc) reg) -> (0 < page_limit limit)%nat -> NoDup (map f_pair reg) ->
+    let st := store_of enc reg in
+    Permutation (map snd (concat (walk (rec_assets enc) (S (length st)) st None limit))) reg /\
+    NoDup (map f_pair (map snd (concat (walk (rec_assets enc) (S (length st)) st None limit)))).
+Proof. exact world_walk_complete_nodup. Qed.
+Print Assumptions C19_world_walk.
+
+Theorem C19_reachable_walk : forall (enc : asset -> bytes) L ubal fbal tdec ops limit,
+  let w := run (init_world L ubal fbal tdec) ops in
+  no_factory_submitter (init_world L ubal fbal tdec) ops ->
+  NoDup (map (rec_key enc) (w_reg w)) -> (0 < page_limit limit)%nat ->
+  let st := store_of enc (w_reg w) in
+  let listed := map f_pair (map snd (concat (walk (rec_assets enc) (S (length st)) st None limit))) in
+  Permutation listed (map f_pair (w_reg w)) /\ NoDup listed.
+Proof. exact reachable_walk_lists_every_pair_once. Qed.
+Print Assumptions C19_reachable_walk.
+
+Theorem C19_world_walk_example :
+  let enc := fun a => match a with ANative d => [110; d] | AToken t => [116; t] end in
+  let reg := [ mkRec (ANative 0) (AToken 2) 4 5 6 6 [] 0 0 30;
+               mkRec (AToken 3) (ANative 0) 6 7 6 6 [] 0 0 30;
+               mkRec (ANative 0) (ANative 1) 8 9 6 6 [] 0 0 30 ] in
+  let st := store_of enc reg in
+  let pages := fun limit => map (fun pg => map f_pair (map snd pg)) (walk (rec_assets enc) (S (length st)) st None limit) in
+  let listed := fun limit => map f_pair (map snd (concat (walk (rec_assets enc) (S (length st)) st None limit))) in
+  map f_pair reg = [4; 6; 8] /\
+  map fst st = [[110; 0; 110; 1]; [110; 0; 116; 2]; [110; 0; 116; 3]] /\
+  listed (Some 1) = [8; 4; 6] /\ listed (Some 2) = [8; 4; 6] /\ listed None = [8; 4; 6] /\
+  pages (Some 1) = [[8]; [4]; [6]] /\ pages (Some 2) = [[8; 4]; [6]] /\ pages None = [[8; 4; 6]].
+Proof. exact world_walk_example. Qed.
+Print Assumptions C19_world_walk_example.
